@@ -349,3 +349,44 @@ Proof.
   - split; [reflexivity|]. unfold stable_polls, stable. intros i Hi _ _ _. cbn [dead_half map length] in Hi.
     do 2 (destruct i as [|i]; [vm_compute; reflexivity|]). lia.
 Qed.
+
+(* ------------------------------------------------------------------ the server loop's timer *)
+(* acquire_authority_lock_with_recovery never branches on "meta.json seen": its polls see absent / vanished (both Ok(None)),
+   readable or invalid *)
+Lemma wf_server_obs_ok g obs :
+  table_wf_server g = true -> (forall o, In o obs -> t_seen o <> SMeta) -> obs_ok g obs.
+Proof.
+  unfold table_wf_server. intros H Hm. repeat (apply andb_true_iff in H; destruct H as [H ?]).
+  intros o Ho. specialize (Hm o Ho). destruct (t_seen o); cbn [resets]; auto.
+Qed.
+
+Theorem server_timer_fires_only_after_grace g obs :
+  table_wf_server g = true -> (forall o, In o obs -> t_seen o <> SMeta) ->
+  forall k, (k < length obs)%nat -> fired (fst (timer_run g None obs)) k = true ->
+  exists j, window g obs (fst (timer_run g None obs)) j k
+            /\ (stable obs (fst (timer_run g None obs)) ->
+                forall i, (j <= i <= k)%nat -> t_inst (nth i obs dflt) = t_inst (nth k obs dflt)).
+Proof.
+  intros Hwf Hm. apply timer_fires_only_after_grace; [|exact (wf_server_obs_ok g obs Hwf Hm)].
+  unfold table_wf_server in Hwf. apply andb_true_iff in Hwf. tauto.
+Qed.
+
+(* the server table before the fix (no reset in the Ok(None) arm): invalid lock, lock gone (Ok(None)), then — within the same
+   call — the fresh empty lock of a starter that won the exclusive create before this loop's next try_acquire *)
+Definition server_table_unfixed : gtable :=
+  {| g_reset_meta := false; g_reset_readable := true; g_reset_absent := false; g_reset_vanished := false;
+     g_reset_cleaned := true; g_grace_ms := 1000; g_strict := true |}.
+Definition server_vanished_obs : list tobs :=
+  [ {| t_now := 0; t_seen := SInvalid; t_inst := 1; t_cleaned := true |};
+    {| t_now := 1020; t_seen := SAbsent; t_inst := 0; t_cleaned := false |};
+    {| t_now := 1040; t_seen := SInvalid; t_inst := 2; t_cleaned := true |} ].
+Lemma server_timer_needs_absent_reset :
+  fst (timer_run server_table_unfixed None server_vanished_obs) = [false; false; true]
+  /\ fst (timer_run full_table None server_vanished_obs) = [false; false; false]
+  /\ (forall j, ~ window server_table_unfixed server_vanished_obs (fst (timer_run server_table_unfixed None server_vanished_obs)) j 2).
+Proof.
+  split; [vm_compute; reflexivity|]. split; [vm_compute; reflexivity|].
+  intros j [Hjk [He Hw]]. destruct (Nat.eq_dec j 2) as [->|Hne].
+  - vm_compute in He. congruence.
+  - destruct (Hw 1%nat ltac:(lia)) as [Hs _]. vm_compute in Hs. congruence.
+Qed.
